@@ -70,6 +70,16 @@ def exec_surface(case):
         queried = 1
         for q in ("vertex_to_faces", "opposite_corner", "boundary_vertices", "edge_id", "is_quad", "is_triangular"):     # every answer the mesh memoises
             c01.query(m, q, len(coords), g["F"], rng)
+    if any(ev["op"] == "split_ears" for ev in case["events"]):
+        # the stand-alone helper that fan-splits every triangle with a vertex of degree 2 (two border edges), on the mesh in place
+        from mouette.mesh.subdivision import split_double_boundary_edges_triangles
+        e = {"op": "split_ears", "exc": "", "f": 0, "n": 1, "V": [], "F": []}
+        try:
+            r = split_double_boundary_edges_triangles(m)
+            e["V"], e["F"] = V_of(r.vertices), L_of(r.faces)
+        except Exception as ex:
+            e["exc"] = type(ex).__name__ + ":" + str(ex)[:60]
+        return {"id": case["id"], "given": g, "events": [e], "c01": []}
     before = proj(m)
     events = []
     ed = SurfaceSubdivision(m)
@@ -300,6 +310,10 @@ def run(ctx):
             o = allops[(i + j) % len(allops)]
             cases.append({"id": "one-%d-%d" % (i, j), "given": {"V": V if V is not None else _lattice_coords(rng, nv_), "F": F, "family": fam},
                           "events": [{"op": "enter"}, {"op": o, "f": rng.randrange(64), "n": 1}, {"op": "exit"}]})
+    # the stand-alone ear splitter on every enumerated triangle complex with a border (a lone triangle has three ears at once)
+    for i, (fam, nv_, F, V) in enumerate(shapes):
+        if all(len(f) == 3 for f in F) and (i % 3 == 0 or len(F) <= 2):
+            cases.append({"id": "ears-%d" % i, "given": {"V": V if V is not None else _lattice_coords(rng, nv_), "F": F, "family": fam}, "events": [{"op": "split_ears"}]})
     obs = ctx.execute("c13", "exec_surface", cases, chunksize=8)
     ctx.judge("C13_Trace", "C13_Trace.cfg", [{k2: c[k2] for k2 in ("id", "given", "events")} for c in obs], "surface-blocks",
               "c13", "exec_surface", batch_events=600)
